@@ -31,6 +31,7 @@ EXPLANATION = (
     "(CHILDLESS) the set of nodes still to divide is maintained exactly by "
     "contract_nodes_pair. "
     "Round 7 (the corner cases the property names; defects F24-F29): (CPSTATE) a copied processor takes every attribute, the id counter included, from the same attribute of its source; (EMPTYPATH) functions handed the caller's `optimize` read `optimize[k]` only when the path has an element; (ZEROSTEP) logarithms of an operation count that is 0 for a no-step contraction are floored - the hyper-optimizer's exact objectives are not (known finding F29); (CHILDLESS initial) the root starts in the set of nodes still to divide only when it is not a leaf; (PROGRESS) every partition-driven loop escapes when the partition did nothing; (NONEMPTY) a tally that is picked from has an entry on every CFG path, extremes over per-edge collections have a default. "
+    'Round 8: (LOGDOMAIN) sign-domain analysis of the logarithms in the greedy score; (FRESHOPT, shared with C16-MEMOFACTORY) no preset is served by a memoised result-carrying optimizer. '
 )
 ASSUMPTIONS = ("partition functions return one label per node; kahypar corner-case guards are not decided",)
 
